@@ -12,6 +12,10 @@ CHECKS = {
    technique="TLA+ spec (Access.tla: generator + Fortran accessibility rule + as-built permission mechanism) model-checked with TLC; every generated specification part replayed into FORD's parser",
    text="TLC enumerates every specification part up to the bound (scope default at every position x declaration attribute x access/protected statement before/after x entity kind; type component/binding defaults x 4 binding forms; submodules), checks that the mechanism without deviations refines the rule and that the as-built deviations are exactly the recorded findings; each case is rendered in 2 spellings x 2 contexts, parsed by the real FORD and entity.permission compared with the rule.",
    note="Exhaustive over the stated product within MaxStmts (3-4 module statements, 5-6 type-body statements, 2 names). Trusted: TLC, the renderer (total function of the abstract program), CPython. Protected+private accepts either value."),
+ "C06": dict(level="model_checking", ref="DESIGN.md 6/C06, 4.5, B.4",
+   technique="TLA+ spec (Scopes.tla: module-graph generator + F2018 14.2.2 USE rules + as-built pub_*/get_used_entities tables) model-checked with TLC; generated projects replayed into FORD's parser/correlator under permuted file orders",
+   text="TLC enumerates projects of 1-3 modules plus a probe scope within a feature budget (default public/private, access statements on own and imported names, USE forms plain/only/rename/only+rename/empty only/two USEs, re-export chains and diamonds), checks that the table mechanism without deviations refines the standard's rule and emits Ref's resolution of every candidate name; each project is rendered one module per file, correlated by the real FORD in several file orders, with probes in a program and inside module procedures, in 3 entity-kind assignments, and every probe reference compared with Ref.",
+   note="Bounded: <=3 modules, 2 entity names + 1 alias, feature budget 2-4; mixed-form double USE with renames excluded (assumption). Trusted: TLC, renderer, CPython."),
 }
 
 NOT_YET = {}
